@@ -38,7 +38,10 @@ META = dict(
          "non-trivial iff the implementation converted values for at least two different classes of one name. A registry case = a "
          "sequence of registrations (worker broker / shared task / producer-side broker, functions sharing a task name), the "
          "construction of the worker's Receiver and calls in ONE driver process, each call judged by the signature of the "
-         "function whose body ran; non-trivial iff a called name had at least two different function definitions registered",
+         "function whose body ran; non-trivial iff a called name had at least two different function definitions registered. "
+         "A life-cycle case = a sequence of registrations, startup() / shutdown() events and calls on ONE InMemoryBroker object "
+         "(constructor options, cast_types both ways) in ONE driver process, each call judged on its own with the configuration "
+         "the broker was constructed with; non-trivial iff some call is made after a shutdown of that object",
     trusted_base=["model: coq/theories/Params.v (hand-written transcription of parse_params, run_task's call assembly, CPython "
                   "argument binding, kicker._prepare_message, formatter composition)",
                   "parse_obj_as (pydantic) = Section variable `conv`, instantiated per case by a table of pydantic's own answers "
@@ -830,6 +833,175 @@ def registry_table_cases():
     return out
 
 
+# --------------------------------------------------------------------------- groups of calls along a broker's life cycle
+# One case = a SEQUENCE in one driver process on ONE InMemoryBroker object (see the driver): the constructor options
+# (cast_types = `validate`, await_inplace, propagate_exceptions, max_async_tasks, sync_tasks_pool_size,
+# max_stored_results), formatter / serializer, then registrations, startup() / shutdown() events and calls in any order:
+# calls on a broker that was never started, started twice, shut down and started again (once or several times), shut
+# down and used without another startup; tasks registered before the first start, between two cycles or after a
+# shutdown; the same task called before and after a restart.  The property quantifies over configurations: with
+# cast_types False EVERY message arrives exactly as sent, with cast_types True every message is converted by the
+# annotations - whatever the object went through before the message.  Each call is judged on its own by the unchanged
+# oracle / model with validate = the cast_types the broker was constructed with.
+# Kept to what the unchanged tree supports: InMemoryBroker.shutdown() closes the thread pool for good, so a SYNC task
+# function cannot run after the first shutdown (RuntimeError: cannot schedule new futures after shutdown - the life
+# cycle of the pool is not this property); functions called after a shutdown are `async def` (sync ones only before).
+LIFE_PRE = [[], [], ["startup"], ["startup"], ["startup", "shutdown", "startup"], ["shutdown", "startup"], ["shutdown"],
+            ["startup", "shutdown"], ["startup", "shutdown", "startup", "shutdown", "startup"], ["startup", "startup"]]
+LIFE_MID = [["shutdown", "startup"], ["shutdown", "startup"], ["shutdown", "startup"], ["shutdown"], ["startup"],
+            ["shutdown", "shutdown", "startup"], ["shutdown", "startup", "shutdown", "startup"]]
+
+
+def gen_broker_opts(r):
+    return dict(await_inplace=r.random() < .5, propagate_exceptions=r.random() < .7, max_async_tasks=r.choice([30, 30, 1, 0]),
+                sync_tasks_pool_size=r.choice([4, 1, 2]), max_stored_results=r.choice([100, 100, -1, 1, 3]))
+
+
+def assemble_life(r, steps, pre, mids, tail, regmode, hows):
+    """events: `pre`, then the calls with `mids[j]` in front of call j (j >= 1), then `tail`; the function of a step is
+    registered up front / right before its first call / at a random earlier point, according to regmode"""
+    life = [{"ev": e} for e in pre]
+    owners = [j for j, st in enumerate(steps) if st.get("task", j) == j]
+    if regmode == "upfront":
+        at = r.randint(0, len(life))
+        life[at:at] = [{"ev": "reg", "step": j, "how": hows[j]} for j in owners]
+    for j, st in enumerate(steps):
+        if j:
+            life += [{"ev": e} for e in mids[j]]
+        if j in owners and regmode != "upfront":
+            ev = {"ev": "reg", "step": j, "how": hows[j]}
+            if regmode == "lazy":
+                life.append(ev)
+            else:
+                life.insert(r.randint(0, len(life)), ev)
+        life.append({"ev": "call", "step": j})
+    return life + [{"ev": e} for e in tail]
+
+
+def shutdowns_before_calls(life):
+    n, out = 0, {}
+    for e in life:
+        if e["ev"] == "shutdown":
+            n += 1
+        elif e["ev"] == "call":
+            out[e["step"]] = n
+    return out
+
+
+def gen_lifecycle_group(r):
+    conf = (r.choice(["proxy", "proxy", "json"]), r.choice(["json", "json", "pickle"]), r.random() < .5)
+    n = r.choice([2, 3, 3, 4, 5])
+    pre = r.choice(LIFE_PRE)
+    mids = [None] + [r.choice(LIFE_MID) if r.random() < .6 else [] for _ in range(n - 1)]
+    if r.random() < .85 and not any("shutdown" in m for m in [pre] + mids[1:]):
+        mids[r.randrange(1, n)] = ["shutdown", "startup"]           # most groups do restart
+    tail = r.choice([[], [], ["shutdown"]])
+    steps = []
+    for j in range(n):
+        if j and r.random() < .35:                                  # the same task again (new values)
+            i = r.randrange(j)
+            i = steps[i].get("task", i)
+            st = copy.deepcopy(dict(params=steps[i]["params"], ret=steps[i]["ret"]))
+            gen_call(r, st)
+            st["async"], st["task"] = steps[i]["async"], i
+        else:
+            st = gen_case(r)
+        set_conf(st, conf)
+        steps.append(st)
+    life = assemble_life(r, steps, pre, mids, tail, r.choice(["upfront", "upfront", "lazy", "mixed"]),
+                         [r.choice(["register", "decorator"]) for _ in steps])
+    for j, k in shutdowns_before_calls(life).items():               # see the header: sync functions only before a shutdown
+        if k:
+            steps[steps[j].get("task", j)]["async"] = True
+    for st in steps:
+        st["async"] = steps[st["task"]]["async"] if "task" in st else st["async"]
+    g = dict(broker=gen_broker_opts(r), life=life, steps=steps)
+    g["fmt"], g["ser"], g["validate"] = conf
+    return g
+
+
+LIFE_FN = [P("a", ann="int"), P("b"), P("p", ann="M1"), P("d", ann="D1"), P("f", "kw", ann="float", default=True),
+           P("flag", "kw", ann="bool", default=True), P("anything", "kw", ann="Any", default=True)]
+LIFE_TABLE_PRE = [[], ["startup"], ["startup", "shutdown", "startup"], ["shutdown"]]
+LIFE_TABLE_MID = [["shutdown", "startup"], ["shutdown"], ["startup", "shutdown", "startup"]]
+
+
+def lifecycle_table_cases():
+    """cast_types off / on x what happened before the first send x what happens between the sends (await_inplace and the
+    other constructor options rotate): one function with annotated / un-annotated / model / dataclass / keyword-only parameters, three calls of one task (the
+    convertible strings and dict forms; model and dataclass instances; by keyword) + one of a task registered last"""
+    combos = [("proxy", "json"), ("json", "json"), ("proxy", "pickle")]
+    out, n = [], 0
+    for validate in (False, True):
+        for pre in LIFE_TABLE_PRE:
+            for mid in LIFE_TABLE_MID:
+                n += 1
+                inplace = n % 2 == 0
+                fmt, ser = combos[n % 3]
+                conf = (fmt, ser, validate)
+                calls = [([J("7"), J("7"), J({"x": "1"}), J({"x": "3", "y": ["4"]})],
+                          [["f", J("2.5")], ["flag", J("true")], ["anything", J({"k": [1, "2", None]})]]),
+                         ([J("8"), J(8), {"model": "M1", "kw": {"x": J(1)}}, {"dc": "D1", "kw": {"x": J(3)}}], [["flag", J("no")]]),
+                         ([J("9")], [["d", J({"x": "5"})], ["p", J({"x": "2", "y": "z"})], ["b", J("9")], ["f", J("1e3")]]),
+                         ([J("10"), J("x"), J({"x": "6"}), J({"x": "7"})], [["f", J("0.5")]])]
+                steps = []
+                for j, (args, kw) in enumerate(calls):
+                    # all `async def`: every function of the table is called after a shutdown (see the header)
+                    st = dict(params=copy.deepcopy(LIFE_FN), ret=None, args=args, kwargs=kw, **{"async": True})
+                    if j in (1, 2):
+                        st["task"] = 0
+                    set_conf(st, conf)
+                    steps.append(st)
+                life = [{"ev": e} for e in pre]
+                life.insert(n % (len(life) + 1), {"ev": "reg", "step": 0, "how": ["register", "decorator"][n // 2 % 2]})
+                life.append({"ev": "call", "step": 0})
+                life += [{"ev": e} for e in mid] + [{"ev": "call", "step": 1}]
+                life += [{"ev": e} for e in LIFE_TABLE_MID[(n + 1) % 3]] + [{"ev": "call", "step": 2}]
+                life += [{"ev": "reg", "step": 3, "how": "decorator"}, {"ev": "call", "step": 3}, {"ev": "shutdown"}]
+                g = dict(broker=dict(await_inplace=inplace, propagate_exceptions=n % 3 != 0, max_async_tasks=[30, 1, 0][n % 3],
+                                     sync_tasks_pool_size=[4, 1][n // 3 % 2], max_stored_results=[100, -1, 2][n % 3]),
+                         life=life, steps=steps)
+                g["fmt"], g["ser"], g["validate"] = conf
+                out.append(g)
+    return out
+
+
+def is_lifecycle(case):
+    return "life" in case
+
+
+def lifecycle_counts(rep, g, o):
+    """evidence for one life-cycle group; non-trivial iff some call is made after the broker object was shut down"""
+    rep.count("lifecycle_group:cases")
+    rep.count("lifecycle_group:steps", len(g["steps"]))
+    rep.count("lifecycle_group:cast_types:" + ("on" if g["validate"] else "off(parsing disabled)"))
+    for k in ("await_inplace", "propagate_exceptions", "max_async_tasks", "sync_tasks_pool_size", "max_stored_results"):
+        rep.count("lifecycle_group:%s:%s" % (k, g["broker"][k]))
+    rep.count("lifecycle_group:receiver_objects_seen_by_the_calls:%s" % o.get("receiver_objects"))
+    nsh, state, first_call = 0, "never_started", {}
+    nt = False
+    for e in g["life"]:
+        if e["ev"] == "startup":
+            state = "restarted" if nsh else "started"
+        elif e["ev"] == "shutdown":
+            nsh += 1
+            state = "shut_down(not started again)"
+        elif e["ev"] == "reg":
+            rep.count("lifecycle_group:task_registered:" + ("before_any_shutdown" if not nsh else "after_a_shutdown") + "/" + e["how"])
+        else:
+            st = g["steps"][e["step"]]
+            t = st.get("task", e["step"])
+            rep.count("lifecycle_call:shutdowns_before:%s" % (nsh if nsh < 3 else "3+"))
+            rep.count("lifecycle_call:broker_state:" + state)
+            rep.count("lifecycle_call:%s:%s" % ("parsing_on" if g["validate"] else "parsing_off",
+                                                "after_a_shutdown" if nsh else "before_any_shutdown"))
+            if t in first_call and first_call[t] < nsh:
+                rep.count("lifecycle_call:task_already_called_before_the_last_restart")
+            first_call.setdefault(t, nsh)
+            nt = nt or nsh > 0
+    return nt
+
+
 def is_registry(case):
     return "events" in case
 
@@ -1282,7 +1454,11 @@ def explore(ctx, rep, cases, label, observe_only=False):
             rep.case(c, False)
             rep.fail("driver crashed (treated as a failure, never skipped)", c, observed=o["_crash"][-600:])
             continue
-        if is_registry(c):
+        if is_lifecycle(c):
+            rep.case(c, lifecycle_counts(rep, c, o))
+            for i, (st, so) in enumerate(zip(c["steps"], o["steps"])):
+                one(st, so, c, i)
+        elif is_registry(c):
             rep.case(c, registry_counts(rep, c, o))
             for i, (st, so) in enumerate(zip(c["steps"], o["steps"])):
                 one(eff_step(c, st, so), so, c, i)
@@ -1342,11 +1518,22 @@ def run(ctx):
                                   "judged by the signature of the function whose body ran"
                                   % (len(rt), len(REG_PAIRS), len(REG_LAYOUTS), len(rgroups)))
     broken = explore(ctx, rep, rt + rgroups, "task_registry") or broken
+    lt = lifecycle_table_cases()
+    r5 = ctx.sub_rng("lifecycle")
+    lgroups = [gen_lifecycle_group(r5) for _ in range(ctx.n(70, 2500))]
+    rep.extra["broker_life_cycle"] = ("%d table groups (cast_types off / on x %d histories before the first send x %d "
+                                      "between the sends, 4 calls each) + %d random groups of 2-5 calls on ONE InMemoryBroker "
+                                      "object with startup() / shutdown() events before and between the sends; each call judged "
+                                      "on its own with the cast_types the broker was constructed with (sync task functions only "
+                                      "before the first shutdown: the pool is closed for good by it)"
+                                      % (len(lt), len(LIFE_TABLE_PRE), len(LIFE_TABLE_MID), len(lgroups)))
+    broken = explore(ctx, rep, lt + lgroups, "broker_life_cycle") or broken
     if (broken or any(not o["ok"] for o in rep.obligations)) and not rep.failures:
         r2 = ctx.sub_rng("search")
         explore(ctx, rep, [gen_case(r2) for _ in range(ctx.n(10000, 100000))] +
                 [gen_group(r2) for _ in range(ctx.n(500, 5000))] +
-                [gen_registry_group(r2) for _ in range(ctx.n(500, 5000))], "search")
+                [gen_registry_group(r2) for _ in range(ctx.n(500, 5000))] +
+                [gen_lifecycle_group(r2) for _ in range(ctx.n(300, 3000))], "search")
     return rep.finish()
 
 
@@ -1360,6 +1547,20 @@ def replay(ctx, path):
         return 1
     if not is_group(c):
         fails = replay_one(ctx, c, o, "replay")
+    elif is_lifecycle(c):
+        print("a sequence in one process on ONE InMemoryBroker(cast_types=%s, %s); formatter/serializer %s/%s; receiver objects "
+              "seen by the calls: %s" % (c["validate"], ", ".join("%s=%s" % kv for kv in sorted(c["broker"].items())), c["fmt"], c["ser"],
+                                         o.get("receiver_objects")))
+        fails = []
+        for e in c["life"]:
+            if e["ev"] in ("startup", "shutdown"):
+                print("  await broker.%s()" % e["ev"])
+            elif e["ev"] == "reg":
+                print("  task t%d registered (%s)" % (e["step"], e["how"]))
+            else:
+                st, so = c["steps"][e["step"]], o["steps"][e["step"]]
+                print("--- call %d: task t%d" % (e["step"], st.get("task", e["step"])))
+                fails += replay_one(ctx, st, so, "replay%d" % e["step"])
     elif is_registry(c):
         print("a sequence in one process around one worker broker and one Receiver (registry `shared` = async_shared_broker, "
               "`other` = a producer-side broker); task names as taskiq derived them:", o["names"])
